@@ -12,7 +12,7 @@ Extraction "model.ml"
   all_sign_types dimensions st_to_bytes st_from_bytes
   page_new page_from_bytes page_eqb page_id get_pixel set_pixel set_all_pixels wf_pageb total_bytes data_bytes bpc set_pixel_byte_view zero_bytes_view
   vinit vstep vrun bus_step bus_run
-  configure configure_if_needed send_pages load_next_page show_loaded_page shut_down create_page sign_width sign_height send_pages_with cop_prog
+  configure configure_if_needed send_pages load_next_page show_loaded_page shut_down create_page sign_width sign_height send_pages_with cop_prog send_pages_gen send_pages_then_panic catch catch_all prelude bind
   run_script run_bus run_cops_script chunks16
   frame_read frame_write serial_process serial_run serial_trace write_gaps odk_process odk_step_replied odk_run wire_step run_wire wire_step_s run_wire_s
   configure_port serial_bus_try_new odk_try_new.
